@@ -34,11 +34,16 @@ def expr(m, w):
 # how a hook TASK can end (C09: error, non-zero exit, involuntary termination, timeout); "ok" = exit 0, voluntary
 TASK_ENDS = {"ok": {"hook_exit": 0, "hook_voluntary": True}, "exit1": {"hook_exit": 1, "hook_voluntary": True},
              "signal": {"hook_exit": -1, "hook_voluntary": True}, "killed": {"hook_exit": 0, "hook_voluntary": False},
-             "exit3killed": {"hook_exit": 3, "hook_voluntary": False}, "silent": {"hook_silent": True}}
+             "exit3killed": {"hook_exit": 3, "hook_voluntary": False}, "silent": {"hook_silent": True},
+             # ends well, but so quickly that the executor reports the end before it has answered the trigger command
+             "early": {"hook_exit": 0, "hook_voluntary": True, "hook_early": True}}
 
 
 def scenario(sid, case, gate=None, timeout="5s", gap_ms=0, pad=False, taskhook=None, nonumber=False, blank=None, both=False,
-             sametext=False, destroy_during=False):
+             sametext=False, destroy_during=False, task_ids=("h1",), late_then=None):
+    # task_ids: which hooks are hook TASKS when taskhook is given; late_then = (late_ms, end): the hook task hangs the first
+    # time it is triggered (the core's hook timeout decides), its process ends late_ms after the trigger, and the next time it
+    # is triggered it ends as `end`
     # destroy_during (with gate): a forced DESTROY is requested while the gated START is in progress; it waits for the
     # transition to end and then tears down what the transition left (a RUNNING environment: the run must be ended)
     # blank: "empty" / "absent" - how an await that equals the trigger is spelled (default: written out)
@@ -49,12 +54,16 @@ def scenario(sid, case, gate=None, timeout="5s", gap_ms=0, pad=False, taskhook=N
     files_extra, scripts = {}, []
     ex = (lambda m, w: "%s%+04d" % (m, w)) if pad else expr
     for h in sorted(case["hooks"], key=lambda x: x["id"]):
-        if taskhook and (h["id"] == "h1" or both):
+        if taskhook and (h["id"] in task_ids or both):
             hcls = "ehs%d%s" % (sid, h["id"])
             files_extra["tasks/%s.yaml" % hcls] = cs.task_class(hcls, mode="hook")
             roles += cs.role_task(h["id"], hcls, critical=h["crit"], trigger=ex(h["tm"], h["tw"]), await_=ex(h["am"], h["aw"]),
-                                  timeout="1s" if taskhook[0] == "silent" else timeout)
-            scripts.append(dict({"class": hcls}, **TASK_ENDS[taskhook[0] if h["fails"] else taskhook[1]]))
+                                  timeout="1s" if (taskhook[0] == "silent" or late_then) else timeout)
+            if late_then and h["fails"]:
+                scripts.append({"class": hcls, "hook_silent": True, "hook_late_ms": late_then[0], "times": 1})
+                scripts.append(dict({"class": hcls}, **TASK_ENDS[late_then[1]]))
+            else:
+                scripts.append(dict({"class": hcls}, **TASK_ENDS[taskhook[0] if h["fails"] else taskhook[1]]))
             continue
         aw = ex(h["am"], h["aw"])
         if blank and (h["tm"], h["tw"]) == (h["am"], h["aw"]):
@@ -92,6 +101,8 @@ def scenario(sid, case, gate=None, timeout="5s", gap_ms=0, pad=False, taskhook=N
                       {"do": "fault", "kind": "END_OF_STREAM", "class": cls},
                       {"do": "waitgate", "point": "env.lock.release", "timeout_ms": 20000},
                       {"do": "ungate", "point": "env.lock.release"}, {"do": "settle", "ms": 20}]
+            if late_then:
+                steps.append({"do": "sleep", "ms": late_then[0]})     # the hung hook's process ends meanwhile
             continue
         if gate and destroy_during:
             steps += [{"do": "control", "env": "e1", "op": ev, "caller": "A%d" % i},
@@ -325,6 +336,17 @@ def run_family(ctx, pid):
     for c in eos:
         sid += 1
         scenarios.append(scenario(sid, c))
+    # ... with the cancelling hook as a hook TASK that hangs when the core asks from inside (hook timeout: STOP cancelled), whose
+    # process ends a little later, and that exits 1 when the STOP is asked for again through the API
+    for c in [x for x in eos if not any(h["once"] for h in x["hooks"]) and not any(h["fails"] for h in x["hooks"] if h["id"] == "h1")][:(3 if quick else 12)]:
+        sid += 1
+        ntask += 1
+        scenarios.append(scenario(sid, c, taskhook=("exit1", "ok"), task_ids=("h2",), late_then=(1400, "exit1")))
+    # hook tasks that end well before the executor has answered the trigger command
+    for c in single_ok[:(6 if quick else 30)]:
+        sid += 1
+        ntask += 1
+        scenarios.append(scenario(sid, c, taskhook=("exit1", "early")))
     # two hooks failing in one moment with the very same error text, one critical and one not
     nst = 0
     for c in [x for x in meet if all(h["fails"] for h in x["hooks"]) and len({h["crit"] for h in x["hooks"]}) == 2][:(40 if quick else 400)]:
